@@ -93,6 +93,30 @@ def nontrivial_replica(case, inp, obs):
     return json.dumps(obs[0][:8]) if relays and len(obs[0]) > 20 else None
 
 
+def gen_changeover(rng, tier):
+    """standalone -> consumer changeover: provider initial set vs standalone bonded set, overlapping keys, MaxValidators
+    truncation, power ties in the standalone set, occasional zero powers / duplicate keys in the initial set."""
+    n = 250 if tier == "quick" else 4000
+    for _ in range(n):
+        ns = rng.choice([0, 1, 2, 3, 5, 8, 12])
+        tokens = [rng.choice([0, 1, 1, 2, 5, 5, 9, 30]) for _ in range(ns)]
+        pool = list(range(ns)) + [100 + j for j in range(rng.choice([0, 1, 3, 6]))]
+        ni = rng.choice([0, 1, 2, 4, 7]) if pool else 0
+        weird = rng.random() < 0.15
+        if weird:
+            init = [[rng.choice(pool), rng.choice([0, 1, 3, 3, 10])] for _ in range(ni)]
+        else:
+            init = [[k, rng.choice([1, 3, 3, 10, 10 ** 6])] for k in rng.sample(pool, min(ni, len(pool)))]
+        yield {"init": init, "tokens": tokens, "maxvals": rng.choice([1, 2, 3, 5, 100]), "height": rng.choice([1, 2, 100, 10 ** 6])}
+
+
+def nontrivial_changeover(case, inp, obs):
+    ups = obs[0]
+    zeros = sum(1 for _, p in ups if p == 0)
+    overlap = any(k < 100 for k, _ in case["init"])
+    return json.dumps(inp[1:4]) if zeros and overlap else None
+
+
 def gen_lint(rng, tier):
     yield {"expected": EXPECTED_SITES}
 
@@ -100,6 +124,7 @@ def gen_lint(rng, tier):
 def describe(codes):
     t = {1: "AccumulateChanges output is not the sorted last-writer-wins merge",
          2: "replicas of the same history diverge (stores / validator updates / packets / events differ)",
+         4: "the updates returned at the standalone->consumer changeover do not hand the consensus set over to the provider's initial set",
          3: "nondeterminism-relevant construct inventory differs from the modelled one (see lint-site lines in the driver log)"}
     return "; ".join(t.get(c, str(c)) for c in codes)
 
@@ -107,6 +132,7 @@ def describe(codes):
 PARTS = [
     Part("fn", "c18", "determinism", gen_fn, go_test="TestFn", nontrivial=nontrivial_fn, describe=describe),
     Part("replica", "c18", "determinism", gen_replica, go_test="TestReplica", nontrivial=nontrivial_replica, describe=describe),
+    Part("changeover", "c18", "determinism", gen_changeover, go_test="TestChangeover", nontrivial=nontrivial_changeover, describe=describe),
     Part("lint", "c18", "determinism", gen_lint, go_test="TestLint", nontrivial=lambda c, i, o: None, describe=describe),
 ]
 
